@@ -14,7 +14,7 @@ theorem next_head_offset_limited (s : St) (h : Head) (fr : Framing) (last : Bool
     (B after : Bytes) (fin : EndState) :
     let r := handle s h fr last a (.limited B.length) (B ++ after) fin
     r.2.1 = after ∧ r.2.2 = false := by
-  sorry
+  exact handle_limited s h fr last a B after fin
 
 /-- small body buffered at parse time: the stream is already positioned after it and handling
     the request does not move it. -/
@@ -22,14 +22,14 @@ theorem next_head_offset_buffered (s : St) (h : Head) (fr : Framing) (last : Boo
     (B after : Bytes) (fin : EndState) :
     let r := handle s h fr last a (.cursor B) after fin
     r.2.1 = after ∧ r.2.2 = false := by
-  sorry
+  exact handle_cursor s h fr last a B after fin
 
 /-- no body. -/
 theorem next_head_offset_empty (s : St) (h : Head) (fr : Framing) (last : Bool) (a : Action)
     (after : Bytes) (fin : EndState) :
     let r := handle s h fr last a .done after fin
     r.2.1 = after ∧ r.2.2 = false := by
-  sorry
+  exact handle_done s h fr last a after fin
 
 /-- Chunked body, any chunking: after the application read any prefix of the payload (or none,
     or everything with or without observing end-of-stream) and finished in any way, the next
@@ -40,7 +40,7 @@ theorem next_head_offset_chunked (s : St) (h : Head) (fr : Framing) (last : Bool
     (hz : usizeFromHex zero = some 0 ∧ zero.all (fun b => b != 13 && b != 59 && b < 128) = true ∧ trim zero = zero) :
     let r := handle s h fr last a (.chunked none) (Spec.renderChunked cs zero ++ after) fin
     r.2.1 = after ∧ r.2.2 = false := by
-  sorry
+  exact handle_chunked s h fr last a cs zero after fin hcs hz
 
 /-- the discard on drop, for a chunk decoder in any state reachable by reading a prefix:
     reading `total` bytes and then dropping the reader leaves the stream exactly at `after`. -/
@@ -51,7 +51,18 @@ theorem chunked_read_then_drain (cs : List Spec.SentChunk) (zero after : Bytes) 
     (hb : 1 ≤ buf) (hf : total < fuel) :
     let r := Body.readUpTo fuel (.chunked none) buf total (Spec.renderChunked cs zero ++ after) fin
     r.2.2.2.length + 2 ≤ dfuel → Body.drain dfuel r.2.2.1 r.2.2.2 fin = some after := by
-  sorry
+  intro r hd
+  obtain ⟨_, i2, i3⟩ := chunked_readUpTo zero after hz buf fin hb fuel none _ _ total
+    (ChunkPos.line cs hcs) hf
+  have hr : r = Body.readUpTo fuel (.chunked none) buf total (Spec.renderChunked cs zero ++ after) fin := rfl
+  by_cases hle : total ≤ (Spec.chunkPayload cs).length
+  · obtain ⟨ic', S', e, hp⟩ := i2 hle
+    rw [e] at hr
+    rw [hr] at hd ⊢
+    exact chunked_drain zero after hz fin dfuel ic' S' _ hp (by simp only [] at hd; omega)
+  · rw [i3 (by omega)] at hr
+    rw [hr]
+    exact drain_done dfuel after fin
 
 /-- non-vacuity: unread chunked body followed by a request. -/
 example :
